@@ -58,7 +58,12 @@ fn panic_known(run: &Run, p: &str) -> Option<String> {
 	None
 }
 /// (id, panic location / message) — a recorded panic is identified by where it is raised
-const PANIC_SIGS: &[(&str, &str)] = &[(K20_HIDOC, "hi-doc-0.3.0/src/anomaly_fixer.rs"), (K20_DPRINT_DEBUG, "Debug panic! Found a")];
+const PANIC_SIGS: &[(&str, &str)] = &[
+	(K20_HIDOC, "hi-doc-0.3.0/src/anomaly_fixer.rs"),
+	(K20_HIDOC_ROPE, "annotated-string-0.3.0/src/annotated_range.rs"),
+	(K20_DPRINT_DEBUG, "Debug panic! Found a"),
+];
+pub const K20_HIDOC_ROPE: &str = "C20-hi-doc-annotation-splice-panic";
 
 /// run the repository's own (debug-profile) jrsonnet-fmt on a text; used for the recorded debug-only panic
 pub fn cli_fmt(text: &str) -> (Option<i32>, String, String) {
